@@ -1,4 +1,4 @@
-CONSTANTS Ws = {1, 2, 3}  Hs = {1, 2, 3}  SBs = {0, 1, 2}  TABs = {0, 1, 2}  MaxOps = 4
+CONSTANTS Ws = {1, 2, 3}  Hs = {1, 2, 3}  SBs = {0, 1, 2}  TABs = {0, 1, 2}  MaxOps = 3
   Kind = "rec"  Bug = ""  Props = {"C17"}  EmitMode = "branch"  EmitMod = 1
 CONSTANT Bytes <- MCBytes
 CONSTANT CurVals <- MCCurVals
